@@ -147,7 +147,18 @@ def plan_rel(ctx):
     ctx.exhaustive = True
 
 
+def plan_C10(ctx):
+    ctx.rule = ("TLC enumerates operand tuples over the numeric corpus N10 (63 values: integers around 2^53/2^63/2^64, 1e-320..1.8e308, coercible strings/arrays/"
+                "null/booleans/objects): all tuples of length 0..2 for + * max min, all pairs for - / %%, unary -, length 3 over 18 values, length 4%s over 6 values; "
+                "plus the public js_op helpers; results are compared bit-for-bit (sign, mantissa, exponent) and by spelling class; one case per TLC state" % (" and 5" if ctx.deep else ""))
+    es_fixture_crosscheck(ctx)
+    cases = ctx.mc("MC_C10")
+    ctx.replay(cases)
+    ctx.exhaustive = True
+
+
 PLANS = {
+    "C10": plan_C10,
     "C07": plan_rel,
     "C08": plan_rel,
     "C09": plan_rel,
